@@ -913,6 +913,10 @@ def c13(case: dict, cv: CallView, out: list) -> dict:
                 out.append((f"C13:{what}-without-poll", f"{what} started without consulting abort_if since the previous attempt/sleep"))
             polled_since = False
             actions += 1
+        elif e[0] == "metric" and e[1] == "retry":
+            # the back-off has been decided and announced: the consultation "before every backoff sleep" comes after this
+            # point (a shutdown flag raised by the hook that sees the retry event must stop the sleep that follows)
+            polled_since = False
         elif e[0] in ("handler", "before") and seen_true:
             out.append(("C13:handler-after-abort", f"{e[0]} invoked after abort_if had answered True"))
     end = ending(cv)
